@@ -159,3 +159,142 @@ pub fn run_fault_case(
     .unwrap();
     true
 }
+
+// ---------------------------------------------------------------------------------------------
+// kind 10: RawLRU under injection, compared with layer F of the model call by call
+
+/// RawLRU with a callback, observed at the level of node names (as kind 9) through the liveness-checked
+/// audit; the last number of the snapshot is the weak-audit code (0 = fine).
+pub struct FLruSubj {
+    pub inner: crate::lru::LruSubj<RecCb, VHasher>,
+    names: std::cell::RefCell<(std::collections::HashMap<usize, i128>, i128)>,
+    pub limit: usize,
+}
+
+impl FLruSubj {
+    pub fn new(cap: usize, hmode: u64, limit: usize) -> Self {
+        let c = caches::RawLRU::<TKey, TVal, RecCb, VHasher>::with_on_evict_cb_and_hasher(cap, RecCb, VHasher::from_mode(hmode)).unwrap();
+        FLruSubj { inner: crate::lru::LruSubj { c }, names: std::cell::RefCell::new((std::collections::HashMap::new(), 2)), limit }
+    }
+}
+
+impl Subject for FLruSubj {
+    fn apply(&mut self, op: &[i128]) -> Ints {
+        self.inner.apply(op)
+    }
+    fn snapshot(&self) -> Ints {
+        let c = &self.inner.c;
+        let mut wa = vec![];
+        crate::subj::weak_audit_list(c, self.limit, &mut wa);
+        let a = c.verif_audit_checked(self.limit, &|p| alloc::is_tracked_live(p));
+        let mut st = self.names.borrow_mut();
+        let (old, mut next) = (std::mem::take(&mut st.0), st.1);
+        let mut now: std::collections::HashMap<usize, i128> = std::collections::HashMap::new();
+        let mut out = vec![a.cap as i128, a.fwd.len() as i128];
+        for (addr, _, k, v) in a.fwd.iter() {
+            let name = match old.get(addr) {
+                Some(n) => *n,
+                None => {
+                    let n = next;
+                    next += 1;
+                    n
+                }
+            };
+            now.insert(*addr, name);
+            out.push(k.id as i128);
+            out.push(v.v as i128);
+            out.push(name);
+        }
+        let mut idx: Vec<i128> = a.index.iter().map(|(_, n)| *now.get(n).unwrap_or(&-1)).collect();
+        idx.sort_unstable();
+        out.extend(idx);
+        out.push(wa[0]);
+        *st = (now, next);
+        out
+    }
+    fn weak_audit(&self, limit: usize) -> Ints {
+        self.inner.weak_audit(limit)
+    }
+}
+
+/// One kind-10 case: the history with (optionally) one injected panic; every line is comparable with the
+/// model.  The faulted operation is rewritten to carry what the model needs (see FaultStep.v).
+pub fn run_flru_case(t: &mut Trace, id: &str, cap: usize, hmode: u64, ops: &[Ints], fault: Option<(usize, u64)>) {
+    ledger_reset();
+    alloc::tab_reset();
+    let qmark = alloc::q_mark();
+    let limit = ops.len() + 8;
+    let tracked = |f: &mut dyn FnMut()| {
+        alloc::track(true);
+        let r = catch_unwind(AssertUnwindSafe(|| f()));
+        alloc::track(false);
+        crate::runner::PANIC_DEPTH.store(0, std::sync::atomic::Ordering::Relaxed);
+        r
+    };
+    let head = format!("C {} 10 {}\nX hasher={}\n", id, cap, hmode);
+    crate::runner::beat_case(&head);
+    let mut made: Option<FLruSubj> = None;
+    if tracked(&mut || made = Some(FLruSubj::new(cap, hmode, limit))).is_err() {
+        return;
+    }
+    let mut subj = made.take().unwrap();
+    t.cases += 1;
+    write!(t.out, "{}", head).unwrap();
+    let _ = subj.snapshot();
+    let _ = ledger_drain();
+    let mut faulted = false;
+    for (idx, op) in ops.iter().enumerate() {
+        if faulted && op[0] == 11 {
+            continue;
+        }
+        let inject = fault.filter(|f| f.0 == idx).map(|f| f.1);
+        t.steps += 1;
+        crate::runner::beat_op(op);
+        set_fuse(inject);
+        let mut res: Option<Ints> = None;
+        let r = tracked(&mut || res = Some(subj.apply(op)));
+        let fired = fired();
+        set_fuse(None);
+        let (dk, dv, dd, cb) = ledger_drain();
+        let snap = subj.snapshot();
+        let (shown, out, cbs): (Ints, Ints, Ints) = match (&r, fired) {
+            (Err(_), Some((k, by))) => {
+                faulted = true;
+                let n = snap[1] as usize;
+                let idxs = &snap[2 + 3 * n..snap.len() - 1];
+                let mut s: Ints = vec![97, k as i128];
+                s.extend(by.iter().map(|x| *x as i128));
+                s.push(idxs.len() as i128);
+                s.extend(idxs.iter());
+                s.extend(op.iter());
+                (s, vec![-1000], vec![0])
+            }
+            (Err(_), None) => (op.clone(), vec![-1000], vec![0]),
+            (Ok(()), _) => {
+                let mut cbs: Ints = vec![cb.len() as i128];
+                for (k, v) in cb {
+                    cbs.push(k as i128);
+                    cbs.push(v as i128);
+                }
+                (op.clone(), res.take().unwrap(), cbs)
+            }
+        };
+        writeln!(t.out, "O {} | {} | {} | {} {} {} {} | {}", join(&shown), join(&out), join(&cbs), dk, dv, dd, ledger_live(), join(&snap)).unwrap();
+        if *snap.last().unwrap() != 0 || dd != 0 {
+            t.out.flush().unwrap();
+            std::mem::forget(subj);
+            return;
+        }
+    }
+    crate::runner::beat_op(&[99]);
+    let mut slot = Some(subj);
+    let r = tracked(&mut || drop(slot.take()));
+    let (dk, dv, dd, _) = ledger_drain();
+    let live = ledger_live();
+    let blocks = alloc::tracked_blocks();
+    let poison = alloc::scan_quarantine(qmark);
+    match r {
+        Ok(()) => writeln!(t.out, "O 99 | {} {} {} {} {} {} | 0 | 0 0 0 0 | ", dk, dv, dd, live, blocks, poison).unwrap(),
+        Err(_) => writeln!(t.out, "O 99 | -1000 | 0 | 0 0 0 0 | ").unwrap(),
+    }
+}
